@@ -13,6 +13,8 @@ Decided:
  POLE-GUARD    every division by the cosine of the latitude in magnetic_field is guarded by a zero test;
  LTP           ned2enu is the swap-north/east, negate-down map and an involution (AVN).
 Not decided: finiteness at the poles beyond the guard, +/-180 degree equality (periodicity of sin/cos), calendar rounding.
+Added after the seeding rounds (DESIGN.md 6.6-6.8):
+ KEEP-DATE  with date=None the stored decimal year is re-submitted unchanged.
 """
 import ast
 import numpy as np
